@@ -91,31 +91,26 @@ Definition c06_meta (meta: list N) : option (N * packet * packet) :=
                | None => None end
   | [] => None
   end.
-(* results of the polls that consumed probe tokens: those whose 'left' is below the probe region size *)
+(* The probes are the last traffic of the script, so the property speaks about the END of the result sequence:
+   the last result that is not 'nothing received' must be probe 2 intact; the one before it must be probe 1
+   intact (delivered) or an error (dropped) - a different packet there is an altered / merged delivery.
+   (Which poll consumed which token is deliberately not used: a receiver may buffer frames internally.) *)
 Definition c06_eval (case obs: list N) : list N * list N :=       (* (view, failing clause) *)
   match rcv_split case, parse_polls obs with
   | Some (link, meta, toks), Some (ps, []) =>
       match c06_meta meta with
       | Some (np, p1, p2) =>
-          let probe_len := np in
           let classes := map (fun e => res_class (fst (fst e))) ps in
           let safe := negb (existsb (fun c => 2 <? c) classes) in
-          (* after exhaustion exactly one more read per poll: the last entry has left = 0 and the harness reports over-reads as class 5 *)
-          let inprobe := filter (fun e => snd (fst e) <? probe_len) ps in
-          let proberes := filter (fun e => negb (res_class (fst (fst e)) =? 2)) inprobe in
+          let nonnone := filter (fun r => negb (res_class r =? 2)) (map (fun e => fst (fst e)) ps) in
           let pk (p: packet) := 0 :: show_packet p in
-          let oks := filter (fun e => res_class (fst (fst e)) =? 0) proberes in
-          let okl := map (fun e => fst (fst e)) oks in
-          let last_ok := match rev_append okl [] with x :: _ => list_eqb x (pk p2) | [] => false end in
-          let shape :=
-            (* [Ok p1; Ok p2]   or   errors only, then Ok p2 ; never a third packet, never an altered one *)
-            match okl with
-            | [a; b] => list_eqb a (pk p1) && list_eqb b (pk p2) && negb (existsb (fun e => res_class (fst (fst e)) =? 1) proberes)
-            | [b] => list_eqb b (pk p2) && (match rev_append proberes [] with x :: _ => res_class (fst (fst x)) =? 0 | [] => false end)
-            | _ => false
+          let '(last_ok, prev_ok, tail2) :=
+            match rev_append nonnone [] with
+            | l :: pr :: _ => (list_eqb l (pk p2), (res_class pr =? 1) || list_eqb pr (pk p1), (match res_class pr with 0 => pr | c => [c] end) ++ l)
+            | [l] => (list_eqb l (pk p2), false, l)
+            | [] => (false, false, [])
             end in
-          let view := b2N safe :: concat (map (fun e => match res_class (fst (fst e)) with 0 => fst (fst e) | c => [c] end) proberes) in
-          (view, if negb safe then [120] else if negb last_ok then [121] else if negb shape then [122] else [])
+          (b2N safe :: tail2, if negb safe then [120] else if negb last_ok then [121] else if negb prev_ok then [122] else [])
       | None => ([3054], [3054])
       end
   | _, _ => ([3054], [3054])
